@@ -1,4 +1,5 @@
 """Implementation-side observations of the name domain (C13): canonicalize_name, is_normalized_name."""
+import os, re
 from packaging.utils import canonicalize_name, is_normalized_name, InvalidName
 
 def b(x): return "T" if x else "F"
@@ -18,6 +19,7 @@ def observe(cmd, args):
         n = is_normalized_name(s)
         if n is not True and n is not False: return "is_normalized_name did not return a bool"
         return "|".join([b(v is not None), b(n), c])
+    if cmd == "n.lower": return args[0].lower()
     if cmd == "law.n.pair": return law_pair(args[0], args[1])
     if cmd == "law.n.allcp": return law_allcp(args[0])
     if cmd == "law.n.lowertable": return law_lowertable()
@@ -29,7 +31,7 @@ SEPS = "-_."
 
 def fold(n):
     """The folding of the statement: every maximal run of '-', '_', '.' becomes one '-', every other character is lower-cased
-    (character by character: the context-dependent final-sigma rule of str.lower is outside the checked domain)."""
+    (character by character; U+03A3 is the one code point whose lower-casing depends on the context: see sig())."""
     out = []; i = 0
     while i < len(n):
         if n[i] in SEPS:
@@ -42,16 +44,24 @@ def fold(n):
 def alnum(c): return ("a" <= c <= "z") or ("A" <= c <= "Z") or ("0" <= c <= "9")
 def valid_spec(n): return len(n) > 0 and alnum(n[0]) and alnum(n[-1]) and all(alnum(c) or c in SEPS for c in n)
 
+SIGMA = "\u03a3"
+def sig(s, k):
+    """With U+03A3 in the input, str.lower() yields U+03C2 or U+03C3 for it depending on the neighbours (Final_Sigma): compare up to that
+    choice (the statement's folding is per character; theorem C13x_canon_folds_sigma has the same shape)."""
+    return k.replace("\u03c2", "\u03c3") if SIGMA in s else k
+
 def law_pair(a, c):
     ca, cc = canonicalize_name(a), canonicalize_name(c)
     for s, k in ((a, ca), (c, cc)):
-        if k != fold(s): return "canonical form is not the run-collapsed lower-cased name: %r -> %r" % (s, k)
+        if sig(s, k) != sig(s, fold(s)): return "canonical form is not the run-collapsed lower-cased name: %r -> %r" % (s, k)
+        if SIGMA in k: return "U+03A3 survives in the canonical form of %r" % s
         if canonicalize_name(k) != k: return "not idempotent on %r" % s
         v = validates(s) is not None
         if v != valid_spec(s): return "validate=True %s %r" % ("accepts" if v else "rejects", s)
         n = is_normalized_name(s)
         if n != (valid_spec(s) and k == s): return "is_normalized_name(%r) = %r but valid=%r, fixed point=%r" % (s, n, valid_spec(s), k == s)
         if v and not is_normalized_name(k): return "canonical form of the valid name %r is not normalized" % s
+    if SIGMA in a or SIGMA in c: return "ok"      # clause 3 is about the per-character folding: strings with U+03A3 are outside it
     if (ca == cc) != (fold(a) == fold(c)): return "canonical forms %s: %r %r" % ("differ for equal foldings" if fold(a) == fold(c) else "conflate", a, c)
     return "ok"
 
@@ -65,21 +75,50 @@ def law_allcp(ctx):
         n = is_normalized_name(s)
         k = canonicalize_name(s)
         if n != (v and k == s): return "is_normalized_name(%r) = %r" % (s, n)
-        if cp == 0x3A3: continue      # capital sigma: lower-casing depends on the context (not modelled, trusted base)
-        if k != fold(s): return "canonical form of %r" % s
+        if canonicalize_name(k) != k: return "not idempotent on %r" % s
+        if v and not is_normalized_name(k): return "canonical form of the valid name %r is not normalized" % s
+        if sig(s, k) != sig(s, fold(s)): return "canonical form of %r" % s
     return "ok"
 
+GEN = os.path.join(os.path.dirname(os.path.abspath(__file__)), "..", "..", "coq", "Gen")
+
+def gen_table(fname, name, arity):
+    """A generated Coq table as Python data: the text between `Definition name ... := [` and `].`."""
+    src = open(os.path.join(GEN, fname)).read()
+    m = re.search(r"Definition %s :[^\n]*:= \[(.*?)\n\]\." % name, src, re.S)
+    if arity == "lower": return {int(a): "".join(chr(int(x)) for x in b.split(";")) for a, b in re.findall(r"\((\d+), \[([0-9; ]*)\]\)", m.group(1))}
+    return [tuple(int(x) for x in t.split(",")) for t in re.findall(r"\(([0-9, ]+)\)", m.group(1))]
+
+def in_ranges(cp, rs):
+    return any(r[0] <= cp <= r[1] for r in rs)
+
 def law_lowertable():
-    """The model's str.lower() table: among non-ASCII code points only U+0130 and U+212A lower-case to text with an ASCII character."""
-    for cp in range(128, 0x110000):
-        l = chr(cp).lower()
+    """The lower-casing facts the C13 theorems rest on, for every code point of the running interpreter:
+       (a) the generated table coq/Gen/LowerTable.v IS chr(c).lower() (and the restricted table of Names.canon_name is exact where it claims);
+       (b) the three hypotheses of NamesLower: never empty; a non-separator lower-cases to non-separators that lower() leaves fixed;
+           on [A-Za-z0-9._-] it is the ASCII lower-casing;
+       (c) the two classes read by the Final_Sigma rule, by probing str.lower() around U+03A3."""
+    tab = gen_table("LowerTable.v", "lower_table", "lower")
+    cased = gen_table("LowerTable.v", "sig_cased_ranges", 2); ign = gen_table("LowerTable.v", "sig_ign_ranges", 2)
+    flat_c = set(); flat_i = set()
+    for lo, hi in cased: flat_c.update(range(lo, hi + 1))
+    for lo, hi in ign: flat_i.update(range(lo, hi + 1))
+    for cp in range(0x110000):
+        c = chr(cp); l = c.lower()
+        want = tab.get(cp, c) if cp >= 128 else (chr(cp + 32) if "A" <= c <= "Z" else c)
+        if l != want: return "U+%04X lower-cases to %r, generated table says %r" % (cp, l, want)
+        if cp >= 128 and cp in tab and tab[cp] == c: return "U+%04X: redundant table entry" % cp
+        if not l: return "U+%04X lower-cases to the empty string" % cp
+        if c not in SEPS:
+            for d in l:
+                if d in SEPS or d.lower() != d: return "U+%04X lower-cases to %r, which is not a separator-free fixed point" % (cp, l)
         has_ascii = any(ord(x) < 128 for x in l)
         if cp == 0x130:
             if l != "i\u0307": return "U+0130 lower-cases to %r" % l
         elif cp == 0x212A:
             if l != "k": return "U+212A lower-cases to %r" % l
-        elif has_ascii: return "U+%04X lower-cases to %r" % (cp, l)
-    for cp in range(128):
-        c = chr(cp)
-        if c.lower() != (chr(cp + 32) if "A" <= c <= "Z" else c): return "ASCII %r lower-cases to %r" % (c, c.lower())
+        elif cp >= 128 and has_ascii: return "U+%04X lower-cases to %r" % (cp, l)
+        a = ("a" + SIGMA + c).lower()[1] == "\u03c3"; b2 = ("a" + SIGMA + c + "a").lower()[1] == "\u03c3"
+        if a != (cp in flat_c): return "U+%04X: cased-and-not-ignorable class differs from the generated table" % cp
+        if (b2 and not a) != (cp in flat_i): return "U+%04X: case-ignorable class differs from the generated table" % cp
     return "ok"
